@@ -8,6 +8,8 @@ class Deadlock(Exception):
 
 
 class Sched:
+    wall_hits = 0        # how often a step ran into the wall-clock limit in this process (see _limit)
+
     def __init__(self, codes, label_of, step_timeout=5.0):
         self.codes = set(codes)
         self.label_of = label_of
@@ -59,7 +61,8 @@ class Sched:
         # bring every thread to its first yield point (or completion)
         for tid in range(n):
             sems[tid].release()
-            if not main.acquire(timeout=self.step_timeout):
+            if not main.acquire(timeout=self._limit()):
+                Sched.wall_hits += 1
                 raise Deadlock("thread %d did not reach a yield point" % tid)
         trace = []
         last = None
@@ -71,7 +74,8 @@ class Sched:
             tid = chooser(steps, enabled, dict(parked), last)
             lab = parked.pop(tid)
             sems[tid].release()
-            if not main.acquire(timeout=self.step_timeout):
+            if not main.acquire(timeout=self._limit()):
+                Sched.wall_hits += 1
                 self.errors = errors
                 raise Deadlock("thread %d blocked inside step %r" % (tid, lab))
             trace.append({"tid": tid, "label": lab, "after": parked.get(tid)})
@@ -86,6 +90,11 @@ class Sched:
         self.errors = errors
         return trace
     on_step = None
+
+    def _limit(self):
+        """a step is a few source lines; the limit only matters when the code under test really blocks. It is generous
+        (a loaded machine must not look like a deadlock) until a step has really hit it twice in this process."""
+        return max(self.step_timeout, 20.0) if Sched.wall_hits < 2 else min(self.step_timeout, 3.0)
 
 
 def explore(run_with, n_threads, preemption_bound, limit):
